@@ -102,7 +102,9 @@ def stepLine (d : DSt) (line : String) : DSt × String :=
       | _ =>
         if stuckB d.s w then (d, s!"expect {k} stuck {render d}\t#F:{finding d.cfg}")
         else (d, s!"expect {k} parked {render d}")
-  | ["rpcs"] => (d, "rpcs calls=5 sys=false vig=false")
+  -- (the last-key Delete: one auto-destroy fired inside a vigil pair ⇒ the dead instance's counter is −1,
+  --  `Hv.C17.defer_balance_autodestroy`)
+  | ["rpcs"] => (d, "rpcs calls=7 sys=false vig=false vigdead=-1")
   | _ => (d, "bad-op")
 
 def run (args : List String) : IO UInt32 := do
